@@ -28,7 +28,9 @@ RULE = ('Hypothesis draws directory trees (depth 0-3, 0-10 files, duplicate base
         'edits, and the matching options (original / uppercase / lowcase / fuzzy matching, recursive, .index files). '
         'Non-trivial: the match needs a case change, suffix edit or extension, or lives in a sub-directory / nested '
         'archive, or a decoy shares a prefix with the request. URL shapes (8 schemes x hosts / ports / credentials x '
-        'paths with and without .zip) are enumerated completely. Distinct = case hash.')
+        'paths with and without .zip) are enumerated completely. Distinct = case hash. Archive trees: containers with '
+        'same-named inner archives to depth 3, 1-5 requests on one reader (non-trivial: depth >= 2, >= 2 requests, a '
+        'repeated inner name). Pairs of directory readers alive together, asked alternately. Lists of 2-4 URLs per call.')
 ASSUMPTIONS = [
     'required variants: name as given / upper / lower (by flags) x known extensions; with fuzzy matching the '
     'lower- and upper-case name with -mib / -MIB appended when the name does not end in it, and the name with that '
